@@ -211,11 +211,22 @@ func (db *RockDB) HMset(ts int64, key []byte, args ...common.KVRecord) error {
 	var num int64
 	var value []byte
 	tsBuf := PutInt64(ts)
+	// a field given more than once is written once, with its last value
+	var lastPos map[string]int
+	if len(args) > 1 {
+		lastPos = make(map[string]int, len(args))
+		for i := 0; i < len(args); i++ {
+			lastPos[string(args[i].Key)] = i
+		}
+	}
 	for i := 0; i < len(args); i++ {
 		if err = checkCollKFSize(verKey, args[i].Key); err != nil {
 			return err
 		} else if err = checkValueSize(args[i].Value); err != nil {
 			return err
+		}
+		if lastPos != nil && lastPos[string(args[i].Key)] != i {
+			continue
 		}
 		ek := hEncodeHashKey(table, verKey, args[i].Key)
 
@@ -426,9 +437,13 @@ func (db *RockDB) HDel(ts int64, key []byte, args ...[]byte) (int64, error) {
 
 	var num int64 = 0
 	var newNum int64 = -1
+	seen := newSeenArgs(len(args))
 	for i := 0; i < len(args); i++ {
 		if err := common.CheckKeySubKey(rk, args[i]); err != nil {
 			return 0, err
+		}
+		if seen.seenBefore(args[i]) {
+			continue
 		}
 
 		ek = hEncodeHashKey(table, rk, args[i])
